@@ -37,6 +37,7 @@ import (
 	"massnet.org/mass-wallet/config"
 	"massnet.org/mass-wallet/masswallet"
 	"massnet.org/mass-wallet/masswallet/keystore"
+	mwdb "massnet.org/mass-wallet/masswallet/db"
 	"massnet.org/mass-wallet/masswallet/txmgr"
 	"verifharness/internal/sim"
 )
@@ -223,6 +224,62 @@ func (h *H) Snap(id string) Snapshot {
 	}
 	s.Addrs = strings.Join(ad, " ")
 	return s
+}
+
+// PendingCoinsOf: the coins of wallet wi created by PENDING transactions (unmined-credits bucket; ownership decided from
+// the transaction's own output script — the store's ExistsUtxo does not tell whose an unmined credit is), each with
+// whether the wallet can still read it back (TxStore.ExistsUtxo, what signing and explicit-input building use: it
+// needs the pending transaction's record) — "ability to build and sign transactions" for coins not yet confirmed.
+// extra: pending transactions the node does not know (delivered through VerifReceiveTx only).
+func (h *H) PendingCoinsOf(wi *WInfo, extra []*wire.MsgTx) string {
+	if _, err := h.W.WM.UseWallet(wi.ID); err != nil {
+		return "use-err"
+	}
+	own := map[int]bool{}
+	for _, a := range wi.Addrs {
+		own[a.Sh] = true
+	}
+	txOf := func(th wire.Hash) *wire.MsgTx {
+		if tx := h.N.Known[th]; tx != nil {
+			return tx
+		}
+		for _, tx := range extra {
+			if tx.TxHash() == th {
+				return tx
+			}
+		}
+		return nil
+	}
+	us, ts, _, _, db := h.W.WM.VerifStores()
+	var l []string
+	mwdb.View(db, func(rtx mwdb.ReadTransaction) error {
+		for _, op := range us.VerifUnminedCredits(rtx) {
+			tx := txOf(op.Hash)
+			if tx == nil || int(op.Index) >= len(tx.TxOut) {
+				continue
+			}
+			_, _, sh := h.classify(tx.TxOut[op.Index].PkScript)
+			if !own[sh] {
+				continue
+			}
+			name := fmt.Sprintf("%s:%d", op.Hash.String()[:10], op.Index)
+			if id, ok := h.TxID[op.Hash]; ok {
+				name = fmt.Sprintf("%d:%d", id, op.Index)
+			}
+			// signing and explicit-input building: ExistsUtxo (the coin and its flags), then the transaction that
+			// created it (ExistsTx for mined ones, ExistUnminedTx for pending ones: wallet.go / tx.go / common.go)
+			if _, err := ts.ExistsUtxo(rtx, &op); err != nil {
+				l = append(l, name+":unreadable")
+			} else if mtx, err := ts.ExistUnminedTx(rtx, &op.Hash); err != nil || mtx == nil {
+				l = append(l, name+":creating-transaction-gone")
+			} else {
+				l = append(l, name+":ok")
+			}
+		}
+		return nil
+	})
+	sort.Strings(l)
+	return strings.Join(l, " ")
 }
 
 func hashOf(s string) wire.Hash {
